@@ -93,9 +93,10 @@ PROPS = {
         assumptions=['simulated MPI (vf/shim): Alltoall/Allgather data movement as in the MPI standard'],
     ),
     'C02': dict(
-        level='other',
+        level='proof',
         contracts=[],
         functions=[],
+        case_functions=[dict(module='vf.contracts.layout', key='pygyro/model/layout.py::Layout.__init__')],
         bounded=[dict(module='vf.rt.bounded_layout', prop='C02',
                       bound='exhaustive 1<=p<=n<=24 (quick) / 80 (thorough) for the partition; Grid accessors and buffer sizes on '
                             'production and seeded random process grids')],
